@@ -61,7 +61,7 @@ func NewAPI(cfg *Config) (*API, error) {
 		config:               cfg,
 		schema:               schema,
 		logger:               logger,
-		execute:              execute,
+		execute:              finishAfter(execute),
 		graphqlWSConnections: map[graphqlWSConnection]struct{}{},
 	}, nil
 }
@@ -83,6 +83,40 @@ type apiRequest struct {
 	asyncResolutions        chan asyncResolution
 	chainedAsyncResolutions map[graphql.ResolvePromise]struct{}
 	batches                 map[*int]*batch
+
+	// done is closed when the execution that the current Go tasks were started for returns.
+	done chan struct{}
+}
+
+// errExecutionFinished is delivered to promises that were still pending in a batch when the
+// execution returned.
+var errExecutionFinished = errors.New("execution finished before the batch was resolved")
+
+// finish must be invoked when an execution returns. Once that happens, nothing receives from
+// asyncResolutions or flushes batches anymore, so anything still pending (e.g. because a sibling's
+// error ended the execution early) is released here instead of being left blocked forever.
+func (r *apiRequest) finish() {
+	if r.done != nil {
+		close(r.done)
+		r.done = nil
+	}
+	for _, b := range r.batches {
+		for _, dest := range b.dests {
+			dest <- graphql.ResolveResult{Error: errExecutionFinished}
+		}
+	}
+	r.batches = nil
+}
+
+// finishAfter wraps execute such that the request's pending asynchronous work is released once it
+// returns.
+func finishAfter(execute func(*graphql.Request, *RequestInfo) *graphql.Response) func(*graphql.Request, *RequestInfo) *graphql.Response {
+	return func(r *graphql.Request, info *RequestInfo) *graphql.Response {
+		if apiRequest, ok := r.Context.Value(apiRequestContextKey).(*apiRequest); ok {
+			defer apiRequest.finish()
+		}
+		return execute(r, info)
+	}
 }
 
 func (r *apiRequest) IdleHandler() {
@@ -174,15 +208,26 @@ func Go(ctx context.Context, f func() (interface{}, error)) graphql.ResolvePromi
 	if apiRequest.asyncResolutions == nil {
 		apiRequest.asyncResolutions = make(chan asyncResolution)
 	}
+	if apiRequest.done == nil {
+		apiRequest.done = make(chan struct{})
+	}
+	done := apiRequest.done
 	ch := make(graphql.ResolvePromise, 1)
 	go func() {
 		v, err := f()
-		apiRequest.asyncResolutions <- asyncResolution{
-			Result: graphql.ResolveResult{
-				Value: v,
-				Error: err,
-			},
-			Dest: ch,
+		result := graphql.ResolveResult{
+			Value: v,
+			Error: err,
+		}
+		select {
+		case apiRequest.asyncResolutions <- asyncResolution{
+			Result: result,
+			Dest:   ch,
+		}:
+		case <-done:
+			// The execution returned without waiting for this result. Nothing else will ever send to
+			// ch, so deliver directly in case a chained resolution is still waiting on it.
+			ch <- result
 		}
 	}()
 	return ch
